@@ -98,7 +98,30 @@ func outcome(app *cli.Cli, argv []string, vals func() string) (res string) {
 	}()
 	err := app.Run(argv)
 	done = true
+	if err != nil && keepErrs {
+		keptErrs = append(keptErrs, keptErr{err, err.Error(), argv[0]})
+	}
 	return fmt.Sprintf("err=%v ran=%d %s", err, ran, vals())
+}
+
+// mode=history only (single-threaded): the error values returned by earlier Runs are kept; an error handed to the
+// caller belongs to that run and must read the same whatever other applications do afterwards.
+type keptErr struct {
+	err  error
+	text string
+	app  string
+}
+
+var keepErrs bool
+var keptErrs []keptErr
+
+func keptErrsChanged() string {
+	for _, k := range keptErrs {
+		if now := k.err.Error(); now != k.text {
+			return fmt.Sprintf(" | the error returned earlier by the Run of %s read %q and now reads %q", k.app, k.text, now)
+		}
+	}
+	return ""
 }
 
 var templates = []*template{
@@ -247,6 +270,18 @@ var templates = []*template{
 		x := app.StringArg("X", "", "")
 		return outcome(app, []string{"t16", "-ba", "v"}, func() string { return fmt.Sprintf("a=%v b=%v X=%q", *a, *b, *x) })
 	}},
+	{name: "T17 rejected by the spec of a sub-command (`t17 push X` without X) under ContinueOnError", run: func() string {
+		app := cli.App("t17", "")
+		app.ErrorHandling = flag.ContinueOnError
+		var x *string
+		app.Command("push", "", func(cmd *cli.Cmd) {
+			cmd.Spec = "[-f] X"
+			cmd.BoolOpt("f force", false, "")
+			x = cmd.StringArg("X", "", "")
+			cmd.Action = func() {}
+		})
+		return outcome(app, []string{"t17", "push", "-f"}, func() string { return fmt.Sprintf("X=%q", *x) })
+	}},
 }
 
 // runTemplate sets the template's environment, builds and runs it in its own goroutine (an Exit ends it),
@@ -297,10 +332,11 @@ func runIndep(c *Ctx) {
 		fmt.Printf("SOLO %s\n", jstr(describeRun(runTemplate(templates[i]))))
 	case "history":
 		// run one history in this fresh process, print every outcome
+		keepErrs = true
 		for _, f := range strings.Split(c.Params["h"], ".") {
 			var i int
 			fmt.Sscan(f, &i)
-			fmt.Printf("STEP %d %s\n", i, jstr(describeRun(runTemplate(templates[i]))))
+			fmt.Printf("STEP %d %s\n", i, jstr(describeRun(runTemplate(templates[i]))+keptErrsChanged()))
 		}
 	case "hist":
 		runHistories(c)
